@@ -472,17 +472,20 @@ impl Meta {
             let mut used = 0usize;
             loop {
                 let before = s.calls;
+                let seg = s.mark();
                 let st = drain_with_replies(&mut s, &replies, &mut used, 2_000_000);
                 steps += s.calls - before;
                 if st != Stop::Stopped {
                     return None;
                 }
+                // CONT after a genuine error is not specified: the run ends there
+                let failed = s.events_since(seg).iter().any(|e| matches!(e, crate::drive::Ev::Error(d, _, _) if !d.starts_with("?BREAK") && !d.starts_with("?REDO")));
                 if used > replies.len() {
                     return None;
                 }
                 out = transcript(s.events_since(mark), Norm::STD);
                 let pr = s.rt.verif_probe();
-                if pr.cont == "Stopped" || conts > 50 {
+                if pr.cont == "Stopped" || conts > 50 || failed {
                     break;
                 }
                 // stopped by STOP / END with a continuation available
@@ -871,12 +874,12 @@ impl Meta {
 impl Prop for Meta {
     fn cases(&self, tier: Tier) -> u64 {
         let q = match self.id {
-            "C13" => 800,
-            _ => 16_000,
+            "C13" => 2_400,
+            _ => 60_000,
         };
         match tier {
             Tier::Quick => q,
-            Tier::Thorough => q * 60,
+            Tier::Thorough => q * 40,
         }
     }
 
